@@ -275,7 +275,7 @@ def run(ctx):
     # the end-of-trace lint visits every thread
     from rules import listlinks
     listlinks.check(ctx, "R8.4", lambda file, name: file.startswith("src/emu/") and file.endswith("/setup.c") and
-                    ("finish" in name or "lint" in name), minimum=6)
+                    "lint" in name, minimum=6)
 
 
 
